@@ -1900,7 +1900,8 @@ def message_templates(R, RID, minimum=20):
         if fi.module.name.startswith('examples') or (fi.cls is not None and cx.recv != fi.cls.qual):
             continue
         has = any(isinstance(c, ast.Call) and (U(c.func).endswith('Error') or U(c.func).endswith('Fail') or
-                                               U(c.func).endswith('Closed') or U(c.func).endswith('Closing'))
+                                               U(c.func).endswith('Closed') or U(c.func).endswith('Closing') or
+                                               U(c.func).endswith('__class__') or U(c.func).startswith('type('))
                   for c in own_nodes(fi.node))
         if not has:
             continue
@@ -1908,7 +1909,16 @@ def message_templates(R, RID, minimum=20):
         for n in g.live_nodes():
             for c in n.calls:
                 ts = R.types.call_targets(c, g.ctx)
-                if not any(t.kind == 'ctor' and 'errors.WebSocketError' in R.prog.mro(t.cls) for t in ts):
+                same_cls = None
+                if isinstance(c.func, ast.Attribute) and c.func.attr == '__class__':
+                    same_cls = c.func.value            # error.__class__(...): another exception of the caught class
+                elif isinstance(c.func, ast.Call) and U(c.func.func) == 'type' and len(c.func.args) == 1:
+                    same_cls = c.func.args[0]          # type(error)(...)
+                if same_cls is not None:
+                    if not any(isinstance(t_, str) and t_.startswith('inst:') and 'errors.WebSocketError' in R.prog.mro(t_[5:])
+                               for t_ in R.types.expr(same_cls, g.ctx)):
+                        continue
+                elif not any(t.kind == 'ctor' and 'errors.WebSocketError' in R.prog.mro(t.cls) for t in ts):
                     continue
                 n_sites += 1
                 a0 = c.args[0] if c.args else None
